@@ -148,13 +148,25 @@ def gen_case(rnd):
             else:
                 stages.append([("gen", prev, rnd.choice(["%sc", "%sa", "%sc"]), out, nt())])
             prev = out
+    elif shape < 0.68:
+        # feedback chain: every tile is read one stage BEFORE the stage that writes it (the value is consumed by the
+        # next iteration); the compiler may decline, but must not double-buffer reader and writer alike
+        tiles = [f"%t{k}" for k in range(S - 1)]
+        for s in range(S):
+            if s == 0:
+                stages.append([("copy", tiles[0], "%sb", nt())])
+            elif s == S - 1:
+                stages.append([("gen", "%sa", "%sc", tiles[s - 1], nt())])
+            else:
+                stages.append([("gen", tiles[s], rnd.choice(["%sc", "%sa"]), tiles[s - 1], nt())])
     else:
         # free assignment of buffers to stages (the compiler may decline)
         written = []
+        feedback = rnd.random() < 0.3  # also read tiles that only a later stage writes
         for s in range(S):
             ops = []
             for _ in range(rnd.choice([1, 1, 2])):
-                srcs = ["%sa", "%sc"] + written[-2:]
+                srcs = ["%sa", "%sc"] + written[-2:] + (list(tiles) if feedback else [])
                 out = rnd.choice(tiles + ["%sb"]) if s < S - 1 else rnd.choice(["%sb", "%sb"] + tiles)
                 if rnd.random() < 0.5:
                     ops.append(("copy", rnd.choice(srcs), out, nt()))
